@@ -47,6 +47,10 @@ def data(k):
     X = numpy.round(rs.rand(40, 2) * 10, 1)
     X[:5, 0] = numpy.array([0.0, 0.1, 9.9, 10.0, 5.0])
     X[5:10, 0] = X[5:10, 0] * 0.1                      # a gap in the middle of feature 0: an empty uniform bin combination
+    if k % 2 == 1:
+        # training rows near the diagonal only: most discretizer cells are EMPTY at training time, yet every one of them shares a bin (on one
+        # feature) with a training cell - at predict time the rows of such cells must go to the global fallback model, not to a neighbour
+        X[:, 1] = numpy.clip(numpy.round(X[:, 0] + rs.rand(40) * 0.4 - 0.2, 1), 0, 10)
     y = numpy.round(X[:, 0] * 3 + X[:, 1], 2) + numpy.arange(40) * 0.001
     w = rs.randint(1, 4, 40).astype(float)
     Q = numpy.vstack([X[:10], numpy.round(rs.rand(30, 2) * 10, 1), numpy.array([[0.0, 10.0], [10.0, 0.0], [5.0, 5.0], [-3.0, 20.0]])])
